@@ -437,7 +437,33 @@ class C11(F.PropCheck):
                 v.append('T: action-trigger frames on the wire %s differ from the calls made while registered %s' % (allw[:8], [x for (t, x) in calls[:8]]))
         return v
 
+    # ------------------------------------------------------------------ known finding / fix bookkeeping
+    KEY = 'debounce-edges-ignored-while-sampling'
+    explained = frozenset()
+
+    def extra_quick(self, ctx):
+        """disagreements: are they exactly the behaviour of the code before docs/fixes/C11_debounce_restart.diff?
+        (the model run with the variant selector 1 = unrepaired code must then agree with the implementation)"""
+        dis = ctx['disagreements']
+        if not dis or ctx['mexe'] is None or ctx['iexe'] is None: return
+        import hashlib
+        cases = [c for (c, d) in dis if c.evs and c.evs[0][0] == 'CFG'][:6000]
+        old = [F.Case(c.id, [(c.evs[0][0], list(c.evs[0][1][:7]) + [1], c.evs[0][2])] + list(c.evs[1:]), c.tags) for c in cases]
+        mres, _ = F.run_batch(ctx['mexe'], old, self.IN, self.OUT)
+        ires, _ = F.run_batch(ctx['iexe'], cases)
+        ex = set()
+        for c in cases:
+            if self.compare(c, mres.get(c.id, ('missing', [])), ires.get(c.id, ('missing', []))) is None:
+                ex.add(hashlib.sha256(F.case_text(c).encode()).hexdigest())
+        self.explained = frozenset(ex)
+        ctx['extra']['disagreements_matching_the_unrepaired_model'] = '%d of %d' % (len(ex), len(cases))
+        if len(ex) == len(cases):
+            ctx['notes'].append('all %d disagreements are reproduced by the model of the code before C11_debounce_restart.diff (rst = false)' % len(cases))
+
     def finding_key(self, case, what):
+        import hashlib
+        if what.startswith('G: a level change that had lasted only'): return self.KEY
+        if what.startswith('disagreement') and hashlib.sha256(F.case_text(case).encode()).hexdigest() in self.explained: return self.KEY
         return None
 
 CHECK = C11()
